@@ -464,3 +464,86 @@ func VH10c_close_window() {
 	verif.Assert(core.ZZSocketPipes(sock) == 0, lab+"/socket-still-tracks-pipes")
 	verif.Assert(verif.LiveGoroutines() == 0, lab+"/goroutines-left-after-close")
 }
+
+// VH10d_close_race: Close happens at the same moment as one or two of {Listen
+// on a new address; Dial (asynchronous) to an absent peer; Dial to a present
+// peer; a peer connecting to an existing listener; OpenContext}, under every
+// schedule in which one goroutine stalls at one synchronisation point until the
+// others are at rest. Each call returns success or a closed error -- and
+// whatever it returned, once Close has returned and things are at rest nothing
+// of the socket is left: no listening address, no dialer still trying, no
+// goroutine, no timer, no open connection, no pipe id.
+func VH10d_close_race() {
+	protos := []string{"pair", "req", "pub", "xbus"}
+	proto := protos[verif.Choice("proto", len(protos))]
+	lab := "C10/" + proto + "/close-race"
+	sock := vp.New(proto)
+	vt.Install()
+	verif.Assert(sock.SetOption(mangos.OptionDialAsynch, true) == nil, lab+"/asynch")
+	side := vt.Listen(sock, "a")
+	K := verif.Param("K", 1)
+	var calls []*call
+	park := func(name string, f func() error) {
+		c := &call{name: name}
+		c.g = verif.Go(name, func() { c.err = f() })
+		calls = append(calls, c)
+	}
+	var tps []*vt.Pipe
+	last := -1
+	for k := 0; k < K; k++ {
+		ev := verif.Choice("ev", 5)
+		verif.Assume(ev > last)
+		last = ev
+		switch ev {
+		case 0:
+			park("listen", func() error { return sock.Listen("vt://b") })
+		case 1:
+			park("dial-absent", func() error { return sock.Dial("vt://nobody") })
+		case 2:
+			park("dial-present", func() error { return sock.Dial("vt://peerB") })
+		case 3:
+			tps = append(tps, side.L.Connect("p1"))
+		case 4:
+			park("open-context", func() error { _, e := sock.OpenContext(); return e })
+		}
+	}
+	var clErr error
+	cg := verif.Go("close", func() { clErr = sock.Close() })
+	verif.Quiesce()
+	verif.Assert(cg.Done() && clErr == nil, lab+"/close-does-not-return")
+	if !cg.Done() {
+		return
+	}
+	for _, c := range calls {
+		verif.Assert(c.g.Done(), lab+"/"+c.name+"-still-blocked-after-close")
+		if c.g.Done() {
+			verif.Assert(c.err == nil || closedErr(c.err), lab+"/"+c.name+"-unexpected-error")
+		}
+	}
+	verif.Assert(verif.PendingCallbackTimers() == 0, lab+"/stoppable-timer-still-armed-after-close")
+	dials := 0
+	for _, d := range vt.T.Dialers {
+		dials += len(d.Dials)
+	}
+	for i := 0; i < 4; i++ {
+		verif.FireTimer()
+	}
+	verif.Quiesce()
+	after := 0
+	for _, d := range vt.T.Dialers {
+		after += len(d.Dials)
+		for _, p := range d.Pipes {
+			verif.Assert(p.Closed, lab+"/dialed-connection-left-open-after-close")
+		}
+	}
+	verif.Assert(after == dials, lab+"/connection-attempt-started-after-close")
+	verif.Assert(verif.LiveGoroutines() == 0, lab+"/goroutines-left-after-close")
+	verif.Assert(verif.PendingTimers() == 0, lab+"/timers-left-after-close")
+	for _, p := range tps {
+		verif.Assert(p.Closed, lab+"/connection-left-open-after-close")
+	}
+	verif.Assert(len(vt.T.Listeners) == 0, lab+"/listening-address-left-after-close")
+	verif.Assert(core.ZZIDsInUse() == 0, lab+"/pipe-ids-left-after-close")
+	verif.Assert(core.ZZSocketPipes(sock) == 0, lab+"/socket-still-tracks-pipes")
+	verif.Reach("close-race-census")
+}
